@@ -137,6 +137,60 @@ Theorem C16_loadlist : forall content,
 Proof. exact loadlist_correct. Qed.
 Print Assumptions C16_loadlist.
 
+(** ---- lloadfilefd in its other modes, for every file content (the file is read into
+    a buffer of its size + 1; sizes are [nat], the C uses size_t: contents below 2^31
+    octets are far inside both) ----
+    mode 0 (vpopbounce): the content itself. *)
+Theorem C16_lloadfile_raw : forall content,
+  lloadfile 0 content = Ok (LOk (length content, content)).
+Proof. exact lloadfile_raw. Qed.
+Print Assumptions C16_lloadfile_raw.
+
+(** mode 1 (tlsserverciphers, one-line files): never an error; the buffer is the
+    non-empty lines after removal of comments, blanks kept, each followed by one NUL
+    ([cat]); the returned length is the length of that buffer (0 and no buffer when
+    there is no such line); every line in it is non-empty and NUL-free *)
+Theorem C16_lloadfile_mode1 : forall content,
+  lloadfile 1 content = Ok (LOk (length (cat (plain_lines content)), cat (plain_lines content)))
+  /\ Forall (fun e => e <> [] /\ Forall (fun b => b <> 0%N) e) (plain_lines content).
+Proof. exact lloadfile1_correct. Qed.
+Print Assumptions C16_lloadfile_mode1.
+
+(** mode 2 (blank rule, no compaction): EINVAL exactly when [list_spec] rejects; 0 and no
+    buffer when there is no entry; otherwise a buffer of the size of the file whose
+    non-empty NUL-separated strings are exactly the entries of [list_spec] *)
+Theorem C16_lloadfile_mode2 : forall content,
+  match list_spec content with
+  | None => lloadfile 2 content = Ok LErr
+  | Some [] => lloadfile 2 content = Ok (LOk (0, []))
+  | Some es => exists img, lloadfile 2 content = Ok (LOk (length content, img)) /\
+                           length img = length content /\ pieces img = es
+  end.
+Proof. exact lloadfile2_correct. Qed.
+Print Assumptions C16_lloadfile_mode2.
+
+(** mode 3 (lists, numbers): EINVAL exactly when [list_spec] rejects, else the entries each followed by one NUL *)
+Theorem C16_lloadfile_mode3 : forall content,
+  lloadfile 3 content =
+    Ok (match list_spec content with None => LErr | Some es => LOk (length (cat es), cat es) end)
+  /\ (forall es, list_spec content = Some es -> Forall (fun e => e <> [] /\ Forall (fun b => b <> 0%N) e) es).
+Proof. exact lloadfile3. Qed.
+Print Assumptions C16_lloadfile_mode3.
+
+(** ---- one-line files: loadonelinerfd (me, helohost, msgidhost, localiphost, outgoingip, the
+    nomail reject text) ----  no non-empty non-comment line: "not there" (ENOENT); exactly
+    one: that line with its comment cut off -- blanks and tabs are NOT stripped, a
+    trailing blank stays part of the value; a second such line: EINVAL.  Never a crash. *)
+Theorem C16_loadoneliner : forall content,
+  loadoneliner content =
+  Ok (match oneliner_spec content with
+      | OneNone => LOk None
+      | OneLine l => LOk (Some l)
+      | OneError => LErr
+      end).
+Proof. exact loadoneliner_correct. Qed.
+Print Assumptions C16_loadoneliner.
+
 (** reading aids for [line_entry], the per-line part of [list_spec] *)
 Theorem C16_line_entry_cases :
   (forall w bl, Forall plain_byte w -> forallb is_blank bl = true -> line_entry (w ++ bl) = Some w) /\
